@@ -34,7 +34,7 @@ def hash_groups():
     g('hash.get_bucket', ['C19', 'C03', 'C17'], 'h_get_bucket', 'cstl_hash_get_bucket',
       replace=['__cstl_hash_get_bucket', 'cstl_clean_bucket', '__cstl_hash_rehash'],
       what='keyed access: <= 3 dirty buckets relocated, sweep advances or completes, one hash consultation when idle, bucket in range',
-      defines=['-DVF_BYTE_STAMPS'])
+      defines=['-DVF_BYTE_STAMPS'], shards=6, timeout=1500)
     g('hash.set_capacity', ['C16', 'C03'], 'h_set_capacity', '__cstl_hash_set_capacity',
       what='bucket array reallocation lands completely or changes nothing (allocation may fail)')
     g('hash.set_capacity_init', ['C16'], 'h_set_capacity', '__cstl_hash_set_capacity',
